@@ -72,6 +72,13 @@ fn generate(rng: &mut Rng) -> C14Sc {
         1 => Some(if rng.chance(1, 3) { b" s3cret with spaces\n".to_vec() } else { b"s3cret".to_vec() }),
         _ => Some(b"a-much-longer-operator-secret-0123456789".to_vec()),
     };
+    // a third of the application runs get their secret the way an operator gives it: through the environment or the
+    // secret file and the application's own configuration loader
+    let secret_source = if use_start && rng.chance(1, 3) { Some((rng.below(2) as u8, rng.usize_below(crate::net::SECRET_SOURCES.len()))) } else { None };
+    let secret = match secret_source {
+        Some((_, idx)) => Some(crate::net::SECRET_SOURCES[idx].as_bytes().to_vec()),
+        None => secret,
+    };
     let timeout_s = *rng.pick(&[1u64, 5, 30, 120, 600, 0]);
     // with PROXY protocol the client is admitted once its header is complete; the header itself has to
     // arrive within the timeout
@@ -196,7 +203,7 @@ fn generate(rng: &mut Rng) -> C14Sc {
     C14Sc {
         net: NetScenario {
             seed: rng.next_u64(),
-            cfg: NetCfg { secret, expiry: Some(expiry), max_frame: Some(max_frame), timeout_ns: secs(timeout_s), proxy, limiter: None, use_start, agones: false },
+            cfg: NetCfg { secret, expiry: Some(expiry), max_frame: Some(max_frame), timeout_ns: secs(timeout_s), proxy, limiter: None, use_start, agones: false, secret_source },
             wall,
             services,
             clients,
@@ -352,6 +359,11 @@ impl Check for C14 {
         if !net_domain_ok(&sc.net) {
             return RunReport::default();
         }
+        if let Some((kind, idx)) = sc.net.cfg.secret_source
+            && (!sc.net.cfg.use_start || kind > 1 || crate::net::SECRET_SOURCES.get(idx).map(|r| r.as_bytes().to_vec()) != sc.net.cfg.secret)
+        {
+            return RunReport::default();
+        }
         if sc.roles.len() != sc.net.clients.len() || !matches!(sc.net.cfg.proxy, None | Some((true, true))) || sc.net.cfg.limiter.is_some() || sc.net.cap_ns < 2 * sc.net.cfg.timeout_ns + secs(10) || sc.net.cfg.timeout_ns % secs(1) != 0 {
             return RunReport::default();
         }
@@ -398,6 +410,9 @@ impl Check for C14 {
         rep.nontrivial = true;
         if sc.net.cfg.proxy.is_some() {
             *rep.faults.entry("proxy_protocol_enabled".into()).or_insert(0) += 1;
+        }
+        if sc.net.cfg.secret_source.is_some() {
+            *rep.faults.entry("secret_through_the_configuration_loader".into()).or_insert(0) += 1;
         }
         if sc.net.clients.iter().any(|c| c.spec.cuts.iter().any(|k| k.at < plen_of(c))) {
             *rep.faults.entry("proxy_header_trickles_in".into()).or_insert(0) += 1;
